@@ -10,6 +10,7 @@ import multiprocessing as mp
 import random
 
 import common
+from common import prune_cache as common_prune
 from common import CACHE, MachineryError, NCPU, WORK, printed, run_tlc, spec_hash, tlc_error_excerpt
 
 CFG = """CONSTANTS
@@ -71,6 +72,7 @@ def transitions(profile: str, universe: str, depth: int, maxpath: int = 3, model
     key = spec_hash("NetBuild.tla", "MC_Build.tla", "DynCases.tla") + f"-{profile}-{universe}-{depth}-{maxpath}-" + "".join(v[0] for v in model.values())
     CACHE.mkdir(exist_ok=True)
     p, meta = CACHE / f"build-{key}.ndjson", CACHE / f"build-{key}.meta.json"
+    common_prune("build", key)
     if p.exists() and meta.exists():
         return [json.loads(l) for l in p.open()], json.loads(meta.read_text())
     d = WORK / "cfg"
